@@ -35,7 +35,7 @@ def build(d):
         nodes, state, old = (grammar.gen_pep440_pattern_and_state(d) if pep else grammar.gen_pattern_and_state(d, safe_seps=True))
         if nodes is None:
             return {"discard": state}
-        spec = projgen.gen_project(d, nodes, state, pep_shaped=pep, max_files=4, max_patterns=3, unicode_text=uni, regimes=regimes)
+        spec = projgen.gen_project(d, nodes, state, pep_shaped=pep, max_files=4, max_patterns=3, unicode_text=uni, regimes=regimes, share_patterns=True)
         spec["legacy"] = False
         flags, date = projgen.gen_bump(d, nodes, state)
     # stretch the files: gaps (several hunks) and lines that look like diff syntax
